@@ -29,7 +29,7 @@ func init() {
 		"prim.aes256ctr":  exAesCtr,
 		"adnl.params":     exAdnlParams,
 		"adnl.frame":      exAdnlFrame,
-		"adnl.parse":      exAdnlParse,
+		"adnl.parsepkt":      exAdnlParse,
 		"adnl.recv":       exAdnlRecv,
 		"adnl.send":       exAdnlSend,
 		"adnl.handshake":  exAdnlHandshake,
@@ -677,7 +677,7 @@ func goAdnlFaults(a []string) string {
 			d.e.Close()
 			return "FAIL corrupt-confirmation-accepted"
 		}
-		ans, merr := modelBatch([]string{"adnl.parse " + strings.Join([]string{rxKey, rxIV, "0", h.Hex(bad)}, " ")})
+		ans, merr := modelBatch([]string{"adnl.parsepkt " + strings.Join([]string{rxKey, rxIV, "0", h.Hex(bad)}, " ")})
 		if merr != nil {
 			return "FAIL model-unavailable " + merr.Error()
 		}
@@ -981,7 +981,7 @@ func genC11(g *h.G) {
 				}
 			}
 			g.Emit("adnl.recv", h.Hex(key), h.Hex(iv), fmt.Sprint(off), h.Hex(stream))
-			g.Emit("adnl.parse", h.Hex(key), h.Hex(iv), fmt.Sprint(off), h.Hex(stream))
+			g.Emit("adnl.parsepkt", h.Hex(key), h.Hex(iv), fmt.Sprint(off), h.Hex(stream))
 		}
 		// --- network sessions, spread between the pure ops so that parallel chunks are balanced
 		if i*nSession/rounds != (i+1)*nSession/rounds {
